@@ -196,6 +196,14 @@ theorem C03_partial_meaning_renamed (env : Env) (cx : PCtx) (e : Elem) (v : JVal
   rw [hrel.eq_of_ne_crash hnc']
   cases D6.valid env typeHasObject (toSchema e) v <;> rfl
 
+/-- the form the driver evaluates: `nfnBool` is an executable test (structural comparison `Elem.same`, proved sound), so a tree
+    the driver classifies as inside the region *is* inside the hypothesis -/
+theorem C03_meaning_decidable (env : Env) (cx : PCtx) (e : Elem) (v : JVal)
+    (hn : nfnBool cx e = true) (hg : Good cx (toSchema e) = true) (hv : distinctKeys v = true)
+    (hnc : e.call env (.val v) ≠ .crash) :
+    e.accepts env v = D6.valid env typeHasObject (toSchema e) v :=
+  C03_partial_meaning_renamed env cx e v (nfnBool_sound cx e hn) hg hv hnc
+
 /-- the most general form: the node equation on verdicts (`NFS`) is all that is used -/
 theorem C03_partial_meaning_sem (env : Env) (cx : PCtx) (e : Elem) (v : JVal)
     (hn : NFS env cx e) (hg : Good cx (toSchema e) = true) (hv : distinctKeys v = true)
